@@ -209,4 +209,39 @@ def run(p: Program, rep: Report, tier: str) -> None:
         rep.violation("R10.2", construct(get, text="awaitable results not wrapped"), where(get), "cached_property does not distinguish awaitable results: a coroutine is cached as is and can be awaited only once (the second `await request.body` fails)")
     elif computed < 2:
         rep.undecide("R10.2", "cached_property.__get__ lacks the awaitable / plain computing paths")
-    rep.require_instances("R10.2", 8)
+    # the cache is write-once: nothing in the package removes or replaces an instance __dict__ entry. (The class doc allows
+    # the USER to delete the attribute; library code doing it - e.g. evicting a failed future - makes the next access
+    # re-run the accessor on an already consumed stream instead of returning the identical cached result.)
+    n_scan = 0
+    for fn in p.all_functions():
+        n_scan += 1
+        for n in ast.walk(fn.node):
+            hit = None
+            if isinstance(n, ast.Delete):
+                for t in n.targets:
+                    if isinstance(t, ast.Subscript) and isinstance(t.value, ast.Attribute) and t.value.attr == "__dict__":
+                        hit = f"del {ast.unparse(t.value)}[...]"
+                    elif isinstance(t, ast.Attribute) and isinstance(t.value, ast.Name) and t.value.id in ("self", "request", "obj") and fn.module.name.endswith(("requests", "utils")):
+                        hit = f"del {ast.unparse(t)}"
+            elif isinstance(n, ast.Call) and isinstance(n.func, ast.Attribute) and n.func.attr in ("pop", "popitem", "clear", "__delitem__") and isinstance(n.func.value, ast.Attribute) and n.func.value.attr == "__dict__":
+                hit = f"{ast.unparse(n.func.value)}.{n.func.attr}(...)"
+            elif isinstance(n, ast.Call) and isinstance(n.func, ast.Name) and n.func.id == "delattr":
+                hit = "delattr(...)"
+            if hit is None:
+                continue
+            rep.violation("R10.2", construct(fn, text="cache eviction: " + hit), where(fn, n),
+                          f"{fn.fq} removes an entry of an instance __dict__ ({hit}): a cached accessor result (e.g. the failed body future after a disconnect) is evicted and the next access "
+                          "re-runs the accessor instead of returning the identical cached result / the same error")
+    own_stores = 0
+    for fn in p.all_functions():
+        if fn.cls is cp or (fn.parent is not None and fn.parent.cls is cp):
+            continue
+        for n in ast.walk(fn.node):
+            if isinstance(n, (ast.Assign, ast.AugAssign, ast.AnnAssign)):
+                for t in (n.targets if isinstance(n, ast.Assign) else [n.target]):
+                    if isinstance(t, ast.Subscript) and isinstance(t.value, ast.Attribute) and t.value.attr == "__dict__":
+                        own_stores += 1
+                        rep.violation("R10.2", construct(fn, text="cache overwrite: " + ast.unparse(t)), where(fn, n), f"{fn.fq} writes an instance __dict__ entry outside cached_property: a cached accessor result can be replaced")
+    if not any(v for v in rep.violations if "cache eviction" in str(v) or "cache overwrite" in str(v)):
+        rep.ok("R10.2", f"no function of the package ({n_scan} scanned) deletes or overwrites an instance __dict__ entry: cached results are write-once")
+    rep.require_instances("R10.2", 9)
